@@ -42,6 +42,7 @@ type dbStep struct {
 	Us         int         `json:"us"`
 	Clients    [][]dbStep  `json:"clients"`
 	Flavor     string      `json:"flavor"`  // "bytes" (default) or "string"
+	UsePre     bool        `json:"usepre"`  // open: use the handle a "prenew" step created while the previous session was still open
 	Async      bool        `json:"async"`   // EnableAsyncWAL
 	ExactOf    int         `json:"exactof"` // open: if > 0, CompactionMaxSizeBytes := TotalBytes of the (exactof)-th table on disk + Delta
 	Delta      int         `json:"delta"`
@@ -330,6 +331,7 @@ func runDB(args []string) error {
 }
 
 type dbExec struct {
+	pre     *simpledb.DB // handle created by a "prenew" step for the next "open"
 	kbMu    sync.Mutex
 	kbufs   map[int][]byte
 	rec     *dbRecorder
@@ -342,7 +344,7 @@ type dbExec struct {
 func (x *dbExec) step(db *simpledb.DB, s dbStep, g int) (*simpledb.DB, error) {
 	rec := x.rec
 	switch s.Op {
-	case "open":
+	case "open", "prenew":
 		if s.ExactOf > 0 {
 			// exact-equality probe of the selection rule: read the table sizes with a throw-away handle first
 			if probe, err := simpledb.NewSimpleDB(x.openDir, simpledb.DisableCompactions()); err == nil {
@@ -381,7 +383,22 @@ func (x *dbExec) step(db *simpledb.DB, s dbStep, g int) (*simpledb.DB, error) {
 		} else {
 			opts = append(opts, simpledb.DisableCompactions())
 		}
-		ndb, err := simpledb.NewSimpleDB(x.openDir, opts...)
+		if s.Op == "prenew" {
+			// the handle of the NEXT session is created now, while the current one is still open (its Open comes after the Close)
+			pre, err := simpledb.NewSimpleDB(x.openDir, opts...)
+			if err != nil {
+				return db, err
+			}
+			x.pre = pre
+			return db, nil
+		}
+		var ndb *simpledb.DB
+		var err error
+		if s.UsePre && x.pre != nil {
+			ndb, x.pre = x.pre, nil
+		} else {
+			ndb, err = simpledb.NewSimpleDB(x.openDir, opts...)
+		}
 		if err != nil {
 			return nil, err
 		}
@@ -460,6 +477,7 @@ func (x *dbExec) step(db *simpledb.DB, s dbStep, g int) (*simpledb.DB, error) {
 		// copy of the live directory (= the image a kill would leave at this quiescent point), kept for the caller under <dir>-<v>
 		atomic.AddInt32(&x.rec.barrier, 2)
 		db.VerifFlushBarrier()
+		x.drainBarrier()
 		if err := copyTree(x.dir, x.dir+"-"+s.V); err != nil {
 			rec.emit(M{"t": "note", "name": "snapshot failed: " + err.Error()})
 		}
@@ -500,6 +518,7 @@ func (x *dbExec) step(db *simpledb.DB, s dbStep, g int) (*simpledb.DB, error) {
 	case "barrier":
 		atomic.AddInt32(&rec.barrier, 2)
 		db.VerifFlushBarrier()
+		x.drainBarrier()
 	case "compact":
 		_, err := db.VerifCompactOnce()
 		if err != nil {
@@ -543,6 +562,15 @@ func (x *dbExec) step(db *simpledb.DB, s dbStep, g int) (*simpledb.DB, error) {
 		return db, fmt.Errorf("unknown step %q", s.Op)
 	}
 	return db, nil
+}
+
+// drainBarrier: VerifFlushBarrier returns when the flusher has TAKEN the second empty store; its "skip" event (which consumes the second barrier
+// credit) follows a moment later. Whoever goes on before that event is recorded (or mutes the recorder) leaves a stale credit behind, and the next
+// genuine skip - the empty store of a Close - would be taken for a barrier. So wait until both credits are consumed.
+func (x *dbExec) drainBarrier() {
+	for i := 0; i < 20000 && atomic.LoadInt32(&x.rec.barrier) > 0; i++ {
+		time.Sleep(100 * time.Microsecond)
+	}
 }
 
 // keyBuf: one reusable key buffer per client goroutine
@@ -671,6 +699,7 @@ func (x *dbExec) argClassCall(db *simpledb.DB, s dbStep, g int) {
 func (x *dbExec) crashCheck(db *simpledb.DB, s dbStep) {
 	atomic.AddInt32(&x.rec.barrier, 2)
 	db.VerifFlushBarrier()
+	x.drainBarrier()
 	img := x.dir + "-crashimg"
 	os.RemoveAll(img)
 	if err := copyTree(x.dir, img); err != nil {
@@ -687,6 +716,7 @@ func (x *dbExec) crashCheck(db *simpledb.DB, s dbStep) {
 func (x *dbExec) tornReopen(db *simpledb.DB, s dbStep) {
 	atomic.AddInt32(&x.rec.barrier, 2)
 	db.VerifFlushBarrier()
+	x.drainBarrier()
 	img := x.dir + "-torn"
 	os.RemoveAll(img)
 	if err := copyTree(x.dir, img); err != nil {
@@ -739,6 +769,7 @@ func (x *dbExec) observe(db *simpledb.DB) {
 	if db != nil {
 		atomic.AddInt32(&x.rec.barrier, 2)
 		db.VerifFlushBarrier()
+		x.drainBarrier()
 		tables = len(db.VerifTables())
 	}
 	fds, maps, gor := 0, 0, 0
